@@ -512,7 +512,15 @@ impl<'f, 't, 'w, W: Write> Formatter<'f, 't, 'w, W> {
         let tzabbrev = self.tm.tzabbrev.as_ref().ok_or_else(|| {
             err!("requires time zone abbreviation in broken down time")
         })?;
-        ext.write_str(Case::Upper, tzabbrev.as_str(), self.wtr)
+        // Abbreviations are conventionally uppercase, which is why `#` is
+        // documented to give lowercase. But not all of them are (`ChST` for
+        // `Pacific/Guam`, or a POSIX time zone like `<aAA>0`), so without
+        // a flag, the abbreviation is written as the time zone spells it.
+        let default = match ext.flag {
+            Some(Flag::Swapcase) => Case::Upper,
+            _ => Case::AsIs,
+        };
+        ext.write_str(default, tzabbrev.as_str(), self.wtr)
     }
 
     /// %A
